@@ -1,6 +1,7 @@
 import Mp4ff.Model.Walk
 import Mp4ff.Lemmas.C04
 import Mp4ff.Lemmas.C04Leaf
+import Mp4ff.Expect.Transcribed
 /-!
 # C04 — untrusted container input never crashes, hangs or balloons memory
 What a theorem can carry of this property: the *structural* part of container decoding (`Model/Walk.lean`, the
@@ -54,5 +55,10 @@ theorem decode_alloc_bound (f : Nat) (L : List Layout.Syn) (hL : Layout.listRepO
 /-- non-vacuity: a moov holding an mvhd-sized leaf and an empty trak -/
 example : (walk ([0,0,0,24] ++ [0x6d,0x6f,0x6f,0x76] ++ [0,0,0,8,0x66,0x72,0x65,0x65] ++ [0,0,0,8,0x74,0x72,0x61,0x6b])).map countAll
     = some 3 := by decide
+
+/-- the Go functions the models of this property transcribe (committed table `spec/transcribed.json`, checked against
+    the current source by the extractor on every run) all still exist -/
+theorem model_sources_exist :
+    (["Boxes.lean", "Walk.lean"] : List String).all Mp4ff.Expect.presentFor = true := by decide +kernel
 
 end Mp4ff.Walk.C04
